@@ -251,6 +251,11 @@ def compare(ctx: pg.Ctx, a: Sequence, b: Sequence, case: dict, codec: str, res) 
         same_dev = False
     if not same_dev:
         fails.append(Fail("device", f"{codec}: decoded device differs", key))
+    elif a.device is not b.device:
+        # ... and field by field, whatever the devices' and channels' own __eq__ say
+        dd = pg.diff_tol(pg.canon_obj(a.device), pg.canon_obj(b.device), "", TOL)
+        if dd:
+            fails.append(Fail("device", f"{codec}: decoded device differs field-wise: {dd}", dict(key, view="fields")))
     va = static_view(a)
     try:
         vb = static_view(b)
@@ -388,6 +393,13 @@ class CaseResult:
         self.parametrized = False
         self.doc = None
         self.built_done = False
+        self.own_validations = 0
+
+
+def zlib_pick(doc: str) -> bool:
+    import zlib
+
+    return zlib.crc32(doc.encode()) % 6 == 0
 
 
 ROUND_RE = re.compile(r"No abstract representation for 'round'")
@@ -467,6 +479,14 @@ def run_case(case: dict, codecs=("abstract", "legacy")) -> CaseResult:
             except Exception as e:  # noqa: BLE001
                 res.fails.append(Fail("schema", f"validate_abstract_repr: {type(e).__name__}: {str(e)[:200]}",
                                       dict(codec="abstract")))
+            if zlib_pick(doc):
+                # every 6th document also with OUR validator on the schema files (the library's own
+                # validation function is code under test)
+                errs = pg.schema_errors(doc)
+                res.own_validations += 1
+                if errs:
+                    res.fails.append(Fail("schema", f"independent validation: {errs[0]}",
+                                          dict(codec="abstract", view="independent")))
             for o in json.loads(doc)["operations"]:
                 res.doc_ops[o["op"]] += 1
             dec = None
@@ -730,6 +750,7 @@ def check(tier: str, seed: int) -> int:
     def handle(case, res: CaseResult, origin: str):
         nonlocal evaluations, compared, nontrivial
         evaluations += 1
+        stats["flavour"]["independently_validated_documents"] += res.own_validations
         compared += res.compared
         c = json.dumps([case["device"], case["spec"], case["ops"], case["mappable"]], sort_keys=True, default=str)
         if c not in distinct:
